@@ -1026,6 +1026,14 @@ class SigVal:
             raise Unsupported("inspect.signature of %r" % (f,))
         self.params = params
         self.node = node
+        self.key = (tuple(params), node.args.vararg.arg if node.args.vararg else None,
+                    node.args.kwarg.arg if node.args.kwarg else None)
+
+    def __eq__(self, other):
+        return isinstance(other, SigVal) and self.key == other.key
+
+    def __hash__(self):
+        return hash(self.key)
 
 
 class WhereIdx:
